@@ -12,6 +12,7 @@ import VlsModel.Model.Bolt3Filter
 import VlsModel.Lemmas.FnGen
 import VlsModel.Gen.FnTxParse
 import VlsModel.Gen.FnTxBalance
+import VlsModel.Gen.FnTxDelta
 /-
 C04 — `Bolt3.estimateFeerate` (the feerate the signer infers for a second-level HTLC transaction,
 `Model/Bolt3Htlc.lean`) proved equal to the body of `estimate_feerate_per_kw` that `translate/rs2lean.py`
@@ -1557,5 +1558,19 @@ example : (Gen.FnTxBalance.CommitmentInfo2.mk false 100 200 [⟨10, 1⟩, ⟨20,
 /-- … and the same outputs on an outbound channel of 300 sat (< 342 = total): panic -/
 example : (Gen.FnTxBalance.CommitmentInfo2.mk false 100 200 [⟨10, 1⟩, ⟨20, 2⟩] [⟨5, 1⟩, ⟨7, 3⟩] :
       Gen.FnTxBalance.CommitmentInfo2 Nat).claimable_balance (fun (_ : Unit) h => h == 1) () true 300 = .error .panic := by rfl
+
+/-! ## Round 10 (b2): `CommitmentInfo2::delta_offered_htlcs / delta_received_htlcs` (tx.rs; `Gen/FnTxDelta.lean`,
+`AddedItemsIter::new(from, to)` = "the elements of `to` that are not in `from`" as a declared external): for every such iterator,
+the first component ranges over what the NEW commitment adds, the second over what it removes, on the list of the right
+direction — an exchanged argument pair or list in the source breaks these. -/
+theorem C04_fn_delta_offered_htlcs {I : Type} (added : List Gen.FnTxDelta.HTLCInfo2 → List Gen.FnTxDelta.HTLCInfo2 → I)
+    (cur new : Gen.FnTxDelta.CommitmentInfo2) :
+    cur.delta_offered_htlcs added new = (added cur.offered_htlcs new.offered_htlcs, added new.offered_htlcs cur.offered_htlcs)
+    ∧ (cur.delta_offered_htlcs added new).2 = (new.delta_offered_htlcs added cur).1 := ⟨rfl, rfl⟩
+
+theorem C04_fn_delta_received_htlcs {I : Type} (added : List Gen.FnTxDelta.HTLCInfo2 → List Gen.FnTxDelta.HTLCInfo2 → I)
+    (cur new : Gen.FnTxDelta.CommitmentInfo2) :
+    cur.delta_received_htlcs added new = (added cur.received_htlcs new.received_htlcs, added new.received_htlcs cur.received_htlcs)
+    ∧ (cur.delta_received_htlcs added new).2 = (new.delta_received_htlcs added cur).1 := ⟨rfl, rfl⟩
 
 end VlsModel.Props.C04Fn
